@@ -3,11 +3,11 @@
 # own suite still passes with it, (b) which quick checks alarm. Output lines: "<name> suite=<0|n> <PROP>=<exit> ..."
 WT=$1
 ALL="C01 C05 C06 C07 C08 C09 C10 C11 C12 C18 C19"
-export CARGO_NET_OFFLINE=true CARGO_TARGET_DIR=/tmp/own-target
+export CARGO_NET_OFFLINE=true
 for d in /verif/mutants/*.diff; do
   name=$(basename $d .diff)
   git -C $WT checkout -q -- . ; git -C $WT apply --whitespace=nowarn $d || { echo "$name does-not-apply"; continue; }
-  suite=$( (cd $WT && cargo test --offline --lib && cargo test --offline --doc) >/dev/null 2>&1; echo $?)
+  suite=$( (cd $WT && CARGO_TARGET_DIR=/tmp/own-target cargo test --offline --lib && CARGO_TARGET_DIR=/tmp/own-target cargo test --offline --doc) >/dev/null 2>&1; echo $?)
   git -C $WT checkout -q -- .
   line="$name suite=$suite"
   if [ -n "$(git -C /repo status --porcelain)" ]; then echo "/repo not clean"; exit 2; fi
